@@ -15,7 +15,7 @@ SIDE = {"client": "A", "server": "B", 0: "A", 1: "B"}
 
 def pay_num(payload):
     try:
-        return int(payload[1:5]) if payload.startswith("p") else 999999
+        return int(payload[1:].split("-")[0]) if payload.startswith("p") else 999999
     except ValueError:
         return 999999
 
@@ -180,6 +180,9 @@ def monitor_conc(c):
         return "harness", "%d datagrams could not be opened with the sender's keys" % c["unopened"]
     if c["write_errs"]:
         return "call-error", "Write failed: %s" % c["write_errs"][0]
+    if c.get("bulk", 0) != c.get("bulk_read", 0):
+        return "arrived-not-delivered", "%d of the %d records of the long first epoch (perfect network) were read" % (
+            c.get("bulk_read", 0), c.get("bulk", 0))
     sealed = [collections.Counter(), collections.Counter()]
     last = {"client": 3, "server": 3}
     for r in recs:
@@ -393,6 +396,8 @@ def run(chk):
                 if st["op"] == "x":
                     stats["early_record_" + ("accepted_now" if st["read"] else "not_accepted_now")] += 1
             stats["max_epoch_%d" % min(max(tr["steps"][-1]["epochs"]), 9)] += 1
+            if any(tr["cfg"].get("preset") or []):
+                stats["long_first_epoch_preset"] += 1
         chk.leg_info("trace", variants=dict(variants), suites=sorted({tr["cfg"]["suite"] for tr in traces}),
                      stats=dict(stats), chain_checked=sum(g for tr in traces for g in tr["gens"]))
     cn = [c for c in concs if len(c["calls"]) >= 2 and c["loss"] > 0]
@@ -400,7 +405,9 @@ def run(chk):
               [(c["case"], c["writers"], c["loss"], len(c["recs"])) for c in cn],
               samples=[{"case": c["case"], "writers": c["writers"], "loss": c["loss"], "records": len(c["recs"]),
                         "updatekeys_calls": len(c["calls"]), "final_epochs": c["epochs"]} for c in cn[-2:]])
-    chk.leg_info("conc", runs=len(concs), monitor_only=True)
+    chk.leg_info("conc", runs=len(concs), monitor_only=True,
+                 long_first_epoch_preset=sum(1 for c in concs if any(c.get("preset") or [])),
+                 long_first_epoch_really_written=[c["bulk"] for c in concs if c.get("bulk")])
     # establishment precondition (informational: no clause of C20 is about establishment)
     for fa in finalack:
         ok_est = fa["client_handshake"] == "ok" and fa["server_handshake"] == "ok"
@@ -420,7 +427,10 @@ def run(chk):
         level="proof",
         rule="trace leg: real DTLS 1.3 client+server in a synctest bubble, one operation at a time (UpdateKeys +/- "
              "RequestPeerUpdate on either side, Write, deliver/duplicate/late-deliver/drop any emitted record, "
-             "virtual time for retransmissions, harness-sealed future-generation records); every step's emitted "
+             "virtual time for retransmissions, harness-sealed future-generation records; in about half of the "
+             "runs the first epoch is preset in-package to have carried 2^16 .. 2^32 records, and the longepoch "
+             "scenario loses the KeyUpdate's ACK k times, writes while it is outstanding and delivers old-epoch "
+             "records after new-epoch ones); every step's emitted "
              "records (epoch, sequence number, content), reads, UpdateKeys returns and the four epochs are compared "
              "with the model evaluated in Coq; evaluations = compared steps. Non-trivial trace = at least one "
              "UpdateKeys returned and the network reordered, duplicated, lost or forged-ahead something; distinct by "
